@@ -1,2 +1,65 @@
-(* C04 — property theorems (being built). *)
-From Klog Require Import Base.Prelude Model.Reconcile Model.Commands.
+(* C04 — mutating commands have exactly their intended effect over any command history.
+   Property theorems only; each is closed by [exact <lemma>] and followed by Print Assumptions.
+   Model: Model/Commands.v (exec_simple) over Model/Reconcile.v and Model/Parser.v.
+   The abstract model works on parsed records (Proofs/CommandsRefine.v):
+     add_entry e r            the record r with the entry e added at its end
+     insert_record r rs       the records rs with r put at the place klog gives a new record (before the first record
+                              when it is dated earlier, otherwise after the record [new_record_position] selects)
+     a_add_entry cfg d fmt e  add e to the first record dated d; when there is none, insert a new record holding e,
+                              with the configured should-total and the date written with the separator the file uses
+     a_add_entry_ok           the model rejects a second open range in a record
+   The files quantified over are the specification-conforming ones: [spec_state file recs] says that the lines of
+   [file] are the lines of the specification records [recs] (Spec/Spec.v: any blank lines before / between / after the
+   records, any of the four indentations per record, LF or CRLF per line, last line with or without newline), and that
+   an unterminated last line does not end in a carriage return. Every rendered well-formed specification document is
+   one (C04_spec_files_exist); by C01 these are the files the parser is specified to accept. Each theorem also says
+   that the result is again such a file, so the statements chain over histories.
+
+   PARTIAL. Covered: create, track (existing record and new record). Not yet covered: start, stop, switch, pause.
+   The refinement is stated for arguments that are themselves specification-conforming (an entry text that is a
+   specification entry, summary lines that are specification summary lines, none ending in a carriage return). *)
+From Klog Require Import Base.Prelude Base.Utf8 Model.Calendar Model.Values Model.Record Model.Lines Model.Parser
+  Model.Reconcile Model.Commands Spec.Spec Proofs.SpecEntry Proofs.SpecRecord Proofs.SpecDoc
+  Proofs.Reconcile Proofs.Commands Proofs.CommandsSpec Proofs.CommandsRefine.
+Open Scope Z_scope.
+
+(* the files: every rendered well-formed specification document whose last line is terminated or does not end in CR *)
+Theorem C04_spec_files_exist : forall d, wf d -> last_line_safe (doc_lines d) -> spec_state (render d) (do_records d).
+Proof.
+  intros d W Hs. destruct (conforms_doc d W) as (lead & gs & C). exact (spec_state_of_conforms _ _ _ _ C Hs).
+Qed.
+Print Assumptions C04_spec_files_exist.
+
+(* what such a file parses to *)
+Theorem C04_spec_state_parse : forall file recs, spec_state file recs ->
+  exists bs, parse_text file = Ok (Parsed (denote_recs recs) bs).
+Proof. intros file recs (lead & gs & C & _). eexists. exact (spec_file_parse _ _ _ _ C). Qed.
+Print Assumptions C04_spec_state_parse.
+
+(* create: succeeds, and re-reading the file yields the records with the new one at its place *)
+Theorem C04_create_refines : forall now cfg ds should srunes file recs d,
+  spec_state file recs -> at_date now ds = Ok d -> valid_cdate (dt d) = true ->
+  let should' := match should with Some m => Some m | None => cfg_should cfg end in
+  should_fits should' -> forallb summary_line_ok srunes = true -> no_cr_lines (map utf8_encode srunes) ->
+  exists file' recs',
+    exec_simple now cfg (Create ds should (map utf8_encode srunes)) file = COk file' /\
+    spec_state file' recs' /\
+    denote_recs recs' =
+      insert_record {| rec_date := a_new_date d (date_format cfg ds) (denote_recs recs); rec_should := should';
+                       rec_summary := map utf8_encode srunes; rec_entries := [] |} (denote_recs recs) /\
+    exists bs', parse_text file' = Ok (Parsed (denote_recs recs') bs').
+Proof. exact create_refines. Qed.
+Print Assumptions C04_create_refines.
+
+(* track: whenever the model accepts, the command succeeds and re-reading the file yields the model's records *)
+Theorem C04_track_refines : forall now cfg ds file recs d se,
+  spec_state file recs -> at_date now ds = Ok d -> valid_cdate (dt d) = true -> should_fits (cfg_should cfg) ->
+  wf_entry se = true -> no_cr_lines (entry_arg se) ->
+  a_add_entry_ok d (denote_entry se) (denote_recs recs) ->
+  exists file' recs',
+    exec_simple now cfg (Track ds (entry_arg se)) file = COk file' /\
+    spec_state file' recs' /\
+    denote_recs recs' = a_add_entry cfg d (date_format cfg ds) (denote_entry se) (denote_recs recs) /\
+    exists bs', parse_text file' = Ok (Parsed (denote_recs recs') bs').
+Proof. exact track_refines. Qed.
+Print Assumptions C04_track_refines.
